@@ -560,6 +560,9 @@ void xmp_inject_event(xmp_context opaque, int channel, struct xmp_event *e)
 	if (ctx->state < XMP_STATE_PLAYING)
 		return;
 
+	if (channel < 0 || channel >= XMP_MAX_CHANNELS)
+		return;
+
 	memcpy(&p->inject_event[channel], e, sizeof(struct xmp_event));
 	p->inject_event[channel]._flag = 1;
 }
